@@ -27,6 +27,26 @@ static int is_tmp(const char *p) {
     return n > 4 && strcmp(p + n - 4, ".tmp") == 0;
 }
 
+// FAULT_PREPLANT=<bytes>: just before the writer creates its temporary file, a file with that very name and <bytes> bytes of stale
+// content is put there — the leftover of an earlier writer that was killed and whose name the new writer happens to draw again.
+static void preplant(const char *path) {
+    const char *pp = getenv("FAULT_PREPLANT");
+    if (!pp) return;
+    static int done = 0;
+    if (done) return;
+    done = 1;
+    int (*real_open)(const char *, int, ...) = dlsym(RTLD_NEXT, "open");
+    ssize_t (*real_write)(int, const void *, size_t) = dlsym(RTLD_NEXT, "write");
+    int (*real_close)(int) = dlsym(RTLD_NEXT, "close");
+    int fd = real_open(path, O_CREAT | O_WRONLY | O_EXCL, 0644);
+    if (fd < 0) return;
+    long n = atol(pp);
+    char buf[256];
+    memset(buf, 0xAB, sizeof buf);
+    while (n > 0) { size_t k = n > (long)sizeof buf ? sizeof buf : (size_t)n; real_write(fd, buf, k); n -= (long)k; }
+    real_close(fd);
+}
+
 // returns 1 if the call must fail with EIO (kill does not return)
 static int hit(int op) {
     counts[op]++;
@@ -53,6 +73,7 @@ static int hit(int op) {
     mode_t mode = 0;                                                     \
     if (flags & (O_CREAT | O_TMPFILE)) { va_list ap; va_start(ap, flags); mode = va_arg(ap, mode_t); va_end(ap); } \
     if (is_tmp(path) && (flags & O_CREAT)) {                             \
+        preplant(path);                                                  \
         if (hit(OP_OPEN)) { errno = EIO; return -1; }                    \
         int fd = CALL;                                                   \
         if (fd >= 0) tmp_fd = fd;                                        \
@@ -69,6 +90,7 @@ int openat(int dirfd, const char *path, int flags, ...) {
     mode_t mode = 0;
     if (flags & (O_CREAT | O_TMPFILE)) { va_list ap; va_start(ap, flags); mode = va_arg(ap, mode_t); va_end(ap); }
     if (is_tmp(path) && (flags & O_CREAT)) {
+        preplant(path);
         if (hit(OP_OPEN)) { errno = EIO; return -1; }
         int fd = real(dirfd, path, flags, mode);
         if (fd >= 0) tmp_fd = fd;
@@ -82,6 +104,7 @@ int openat64(int dirfd, const char *path, int flags, ...) {
     mode_t mode = 0;
     if (flags & (O_CREAT | O_TMPFILE)) { va_list ap; va_start(ap, flags); mode = va_arg(ap, mode_t); va_end(ap); }
     if (is_tmp(path) && (flags & O_CREAT)) {
+        preplant(path);
         if (hit(OP_OPEN)) { errno = EIO; return -1; }
         int fd = real(dirfd, path, flags, mode);
         if (fd >= 0) tmp_fd = fd;
